@@ -166,8 +166,15 @@ func argDesc(v ssa.Value) string {
 		return x.String()
 	case *ssa.Extract:
 		return "elem"
+	case *ssa.FreeVar:
+		return x.Name()
 	}
-	return v.Name()
+	if u, ok := v.(*ssa.UnOp); ok {
+		if fv, ok := u.X.(*ssa.FreeVar); ok {
+			return fv.Name()
+		}
+	}
+	return "value"
 }
 
 // zeroValueSource: v may be the zero reflect.Value; returns a description of why, or "".
